@@ -5,11 +5,11 @@ from pyvc.run import Item
 from specs import template, source_lemma
 from bounded import chain_text
 
-TARGETS = ['clastic.sinter.inject', 'clastic.sinter.make_chain']
+TARGETS = ['clastic.sinter.inject', 'clastic.sinter.make_chain', 'clastic.sinter.chain_argspec']
 
 # the dispatch loop contract is proof support shared with C06-C08; C02's own clauses are
 # the at-call obligations, execute/execute_error/inject, the lemmas and the template/text checks
-OWN = [r'at-call', r'/frame$', r'BoundRoute\.execute', r'sinter\.inject', r'sinter\.make_chain', r'^C02\.', r'^bounded:', r'BoundRoute\.__init__.*/ensures\[3\]']
+OWN = [r'at-call', r'/frame$', r'BoundRoute\.execute', r'sinter\.inject', r'sinter\.make_chain', r'sinter\.chain_argspec', r'^C02\.', r'^bounded:', r'BoundRoute\.__init__.*/ensures\[3\]']
 
 CANARIES = [
     {'name': 'execute-resources-override-caller', 'file': 'clastic/route.py',
@@ -40,6 +40,15 @@ GENERAL_CASE = {
     'endpoint': {'pos': ['u0', 'ra', 'p', 'q', 'request', '_route', '_application', '_dispatch_state', 'dflt'],
                  'defaults': ['dflt']},
     'render': {'pos': ['context', 'r', 'p', 'u0']},
+    'resources': ['ra', 'rb'], 'url': ['u0']}
+
+
+# keyword-only parameters (with and without a default) whose names a resource, the URL and a middleware offer
+KWONLY_CASE = {
+    'level': 'route',
+    'mws': [{'request': {'pos': ['next'], 'kwonly': ['ra', 'request'], 'kwdefaults': ['ra']}, 'provides': ['p']}],
+    'endpoint': {'pos': ['u0'], 'kwonly': ['ra', 'p', 'rb'], 'kwdefaults': ['ra', 'p']},
+    'render': {'pos': ['context'], 'kwonly': ['rb', 'u0'], 'kwdefaults': ['u0']},
     'resources': ['ra', 'rb'], 'url': ['u0']}
 
 
@@ -84,4 +93,5 @@ def refute(pc, unknown_items):
 
 def fallback(pc):
     return [{'script': 'c01_case.py', 'case': GENERAL_CASE},
+            {'script': 'c01_case.py', 'case': KWONLY_CASE},
             {'script': 'c01_search.py', 'case': {'budget': 3000, 'seed': pc.seed}, 'replay_script': 'c01_case.py'}]
